@@ -541,3 +541,26 @@ Proof. induction n; cbn; congruence. Qed.
 
 Lemma comp_raise_first k f v t : f v = Some None -> comp_loop k f (v :: t) = Some None.
 Proof. intros H. cbn [comp_loop]. rewrite H. reflexivity. Qed.
+
+(** * element-wise and of two bool arrays *)
+Definition and_list (a b : list bool) : list bool := map (fun p => fst p && snd p) (combine a b).
+
+Lemma and_list_map2 {A B} (p : A -> bool) (q : B -> bool) l1 l2 :
+  and_list (map p l1) (map q l2) = map (fun xy => p (fst xy) && q (snd xy)) (combine l1 l2).
+Proof.
+  unfold and_list. revert l2. induction l1 as [|x t IH]; intros [|y u]; try reflexivity.
+  cbn [map combine fst snd]. rewrite IH. reflexivity.
+Qed.
+
+Lemma and_list_map {A} (p q : A -> bool) l : and_list (map p l) (map q l) = map (fun x => p x && q x) l.
+Proof. unfold and_list. induction l as [|x t IH]; [reflexivity|]. cbn [map combine fst snd]. rewrite IH. reflexivity. Qed.
+
+Lemma unB_VB (l : list bool) : unB (map VB l) = Some l.
+Proof. unfold unB. induction l as [|x t IH]; [reflexivity|]. cbn [map map_opt]. cbn in IH. rewrite IH. reflexivity. Qed.
+
+Lemma cmp_bc_VQ op (l : list Q) b y :
+  toQ b = Some y -> cmp_bc op (VA (map VQ l)) b = Some (VA (map VB (map (fun x => qcmp op x y) l))).
+Proof.
+  intros Hb. assert (H := cmp_bc_arrQ op (fun z : Q => z) l b y Hb).
+  rewrite map_map. etransitivity; [|exact H]. reflexivity.
+Qed.
